@@ -329,6 +329,9 @@ class FreeEnergy(InterpolatableFunction):
         potentialEffList = np.full((1, 1), [potential0])
 
         # maximum temperature range
+        # Does the range remembered from an earlier trace limit this one?
+        clippedMin = self.minPossibleTemperature[0] > TMin
+        clippedMax = self.maxPossibleTemperature[0] < TMax
         TMin = max(self.minPossibleTemperature[0], TMin)
         TMax = min(self.maxPossibleTemperature[0], TMax)
 
@@ -466,11 +469,14 @@ class FreeEnergy(InterpolatableFunction):
             self.maxPossibleTemperature > self.minPossibleTemperature
         ), f"Temperature range negative: decrease dT from {dT}"
 
-        if min(TFullList) > TMin:
-            self.minPossibleTemperature[1] = True
-
-        if max(TFullList) < TMax:
-            self.maxPossibleTemperature[1] = True
+        # An end is where the phase disappears if the trace stopped short of it, or if
+        # it was flagged by an earlier trace and the remembered range limited this one.
+        self.minPossibleTemperature[1] = bool(
+            min(TFullList) > TMin or (self.minPossibleTemperature[1] and clippedMin)
+        )
+        self.maxPossibleTemperature[1] = bool(
+            max(TFullList) < TMax or (self.maxPossibleTemperature[1] and clippedMax)
+        )
 
         if (
             self.maxPossibleTemperature[0]
